@@ -112,13 +112,17 @@ def _build_deb(src, names):
         it.call(H.Closure(f.node, {}, me, f.cls), [None, 'r', None])
     except H.Raised as x:
         return ('raise', x.exc)
-    parts = heap.objs[me.name].get('_DebFile__parts')
+    # what the object answers through its own accessors (whatever it keeps the parts in)
     out = {}
-    if parts is not None:
-        for k, v in heap.objs[parts.name]['entries']:
+    for k, acc in (('control.tar', 'control'), ('data.tar', 'data')):
+        try:
+            v = it.ev(ast.parse('m.%s' % acc, mode='eval').body, {'m': me}, None)
+        except H.Raised as x:
+            return ('raise', x.exc)
+        if isinstance(v, H.Ref):
             o = heap.objs[v.name]
             mem = o.get('member')
-            out[k] = (o['__class__'], heap.objs[mem.name]['name'] if mem is not None else None)
+            out[k] = (o['__class__'], heap.objs[mem.name]['name'] if isinstance(mem, H.Ref) else None)
     return ('ok', out)
 
 
@@ -441,11 +445,18 @@ def r7_parts_own_their_cursor(rep, src):
         it.call(H.Closure(f.node, {}, me, f.cls), [None, 'r', None])
     except H.Raised as x:
         raise AnalysisError('C07.R7: DebFile.__init__ raises %s on the archive [%s] (decided under C07.R2 / R3)' % (x.exc, ', '.join(names)))
-    parts = heap.objs[me.name].get('_DebFile__parts')
-    if parts is None:
-        raise AnalysisError('C07.R7: DebFile.__init__ does not fill __parts any more')
+    # (the parts as the object hands them out through its own accessors, whatever it keeps them in)
+    got_parts = []
+    for acc in ('control', 'data'):
+        try:
+            v_ = it.ev(ast.parse('m.%s' % acc, mode='eval').body, {'m': me}, None)
+        except H.Raised as x:
+            raise AnalysisError('C07.R7: DebFile.%s raises %s after construction' % (acc, x.exc))
+        if not isinstance(v_, H.Ref):
+            raise AnalysisError('C07.R7: DebFile.%s is %r' % (acc, v_))
+        got_parts.append((acc + '.tar', v_))
     n = 0
-    for k, v in heap.objs[parts.name]['entries']:
+    for k, v in got_parts:
         o = heap.objs[v.name]
         held = [(a, x) for a, x in o.items() if isinstance(x, H.Ref) and heap.objs[x.name].get('__class__') == 'ArMember']
         if not held:
